@@ -57,10 +57,12 @@ def trimAst (sd : TrimSide) (ln : TrimLength) (ast : Ast) (v : List Char) : List
   | .ok p => trimValue p v
   | .error _ => v
 
-def observe (ast : Ast) (text : List Char) : String × String :=
+/-- `ast`: what the model parser produced (model column); `sast`: what the Spec grammar `specParse` produced
+    (Spec column) — equal by `parser_is_grammar`, computed independently here -/
+def observe (ast : Ast) (sast : Ast) (text : List Char) : String × String :=
   match Pattern.fromAst ast (mkCfg true true false false) with
   | .error e =>
-    let spec := if astDefined ast then "FAIL:defined-pattern-rejected" else "-"
+    let spec := if astDefined sast then "FAIL:defined-pattern-rejected" else "-"
     (s!"E={showErr e}", spec)
   | .ok p0 =>
     let pat (ab ae sh lp : Bool) : Pattern :=
@@ -79,17 +81,17 @@ def observe (ast : Ast) (text : List Char) : String × String :=
     let t := trims.map fun (sd, ln) => encChars (trimAst sd ln ast text)
     let obs := s!"E=ok L={bit lit} M={"".intercalate m} F={",".intercalate f} P={",".intercalate lp} T={",".intercalate t}"
     -- Spec
-    let gm := globMatch ast text
+    let gm := globMatch sast text
     let spec :=
-      if !astDefined ast then "-"
+      if !astDefined sast then "-"
       else if gm != (pat true true false false).isMatch text then "FAIL:is_match-vs-glob"
-      else if ((substrings text).any (globMatch ast)) != (pat false false false false).isMatch text then
+      else if ((substrings text).any (globMatch sast)) != (pat false false false false).isMatch text then
         "FAIL:unanchored-vs-glob"
       -- shortest/longest with multi-character collating elements is outside the defined notation
       -- (POSIX locale has none; which of `a` / `ab` a bracket takes first is unspecified): not compared
       -- … on the PREFIX side; suffix removal is exact for every pattern (`suffix_trim_correct`)
-      else match (if hasSeq ast then trims.filter (fun x => x.1 == TrimSide.suffix) else trims).find?
-          (fun (sd, ln) => specTrim sd ln ast text != trimAst sd ln ast text) with
+      else match (if hasSeq sast then trims.filter (fun x => x.1 == TrimSide.suffix) else trims).find?
+          (fun (sd, ln) => specTrim sd ln sast text != trimAst sd ln ast text) with
         | some (sd, ln) => s!"FAIL:trim-{repr sd}-{repr ln}"
         | none => "ok"
     (obs, spec)
@@ -112,8 +114,8 @@ def observeShell (subj q1 p1 q2 p2 : List Char) : String × String :=
   let arr := [subj, 'x' :: subj, subj ++ subj, []]
   let a := trims.map fun (sd, ln) => ",".intercalate ((trimArray sd ln pa arr).map encChars)
   let obs := s!"arm={arm} T={",".intercalate t} A={"/".intercalate a}"
-  let a1 := parseAtoms pa
-  let a2 := parseAtoms pb
+  let a1 := specParse pa
+  let a2 := specParse pb
   let spec :=
     if !(astDefined a1 && astDefined a2) then "-"
     else if hasSeq a1 || hasSeq a2 then
@@ -199,7 +201,7 @@ def observeCase (subj : Option (List Char))
     else
       let items := itemsE.map fun (as, c) => (as.filterMap id, c)
       let obs := showCase bodies (caseExec items subj)
-      let sitems := items.map fun (as, c) => (as.map parseAtoms, c)
+      let sitems := items.map fun (as, c) => (as.map specParse, c)
       let spec := "=" ++ showCase bodies (specCaseExec subj false 0 sitems)
       (obs, spec)
 
@@ -250,11 +252,12 @@ def runLine (line : String) : String :=
       let p ← decChars p
       let t ← decChars t
       let pcs := if esc == "e" then withEscape p else withoutEscape p
-      pure (observe (parseAtoms pcs) t)
+      pure (observe (parseAtoms pcs) (specParse pcs) t)
     | ["s", s, q1, p1, q2, p2] => do
       pure (observeShell (← decChars s) (← decChars q1) (← decChars p1) (← decChars q2) (← decChars p2))
     | ["a", ast, t] => do
-      pure (observe (← parseAst ast) (← decChars t))
+      let a ← parseAst ast
+      pure (observe a a (← decChars t))
     | "k" :: subj :: items => do
       let sj ← (if subj == "!" then some none else (decChars subj).map some)
       pure (observeCase sj (← items.mapM parseItem))
